@@ -109,18 +109,20 @@ def fix_sibling_ids(spec, auto=lambda label: ("auto", label)):
     """Make a spec legal by construction: drop explicit ids that would give two
     siblings the same effective data_id (in place; returns spec)."""
 
-    def eff(n):
-        o = n[2] if len(n) > 2 and n[2] else {}
-        return ("x", o["id"]) if o.get("id") is not None else auto(n[0])
+    def has_id(n):
+        return len(n) > 2 and n[2] and n[2].get("id") is not None
 
     def rec(nodes):
-        seen = set()
+        seen = {auto(n[0]) for n in nodes if not has_id(n)}
         for n in nodes:
-            e = eff(n)
-            if e in seen and len(n) > 2 and n[2] and "id" in n[2]:
-                del n[2]["id"]
-                e = eff(n)
-            seen.add(e)
+            if has_id(n):
+                e = ("x", n[2]["id"])
+                if e in seen or auto(n[0]) == e:
+                    del n[2]["id"]
+                    # the label itself is unique among the siblings (construction of forest_specs),
+                    # unless an injected duplicate label exists: then keep the first only
+                else:
+                    seen.add(e)
             rec(n[1])
 
     rec(spec)
